@@ -126,6 +126,7 @@ func (mt *MarkdownTable) RenderTo(w io.Writer) error {
 
 	controlRowCells := make([]tabular.Cell, 0, columnCount)
 	alignments := make([]align.Alignment, columnCount)
+	defaultAlignRaw := mt.Column(0).GetProperty(align.PropertyType)
 	for i := 0; i < columnCount; i++ {
 		width := widths[i]
 		// spec mandates at least three dashes
@@ -134,6 +135,10 @@ func (mt *MarkdownTable) RenderTo(w io.Writer) error {
 		}
 		var al align.Alignment
 		alRaw := mt.Column(i + 1).GetProperty(align.PropertyType)
+		if alRaw == nil {
+			// same rule as texttable: column 0 holds the all-columns default
+			alRaw = defaultAlignRaw
+		}
 		if alRaw != nil {
 			al = alRaw.(align.Alignment)
 			alignments[i] = al
